@@ -145,6 +145,18 @@ fn check_single(m: &MExt, tail: &[u8], obs: &mut Obs) -> R {
             }
         }
     }
+    // the parser every "other type" goes to, called by itself on any (type, length, data): Unknown(type, data) byte-for-byte - the
+    // data is exactly the declared bytes, whatever follows in the buffer
+    if enc.len() >= 4 {
+        let body = &enc[4..];
+        match call(parse_tls_extension_unknown, &buf)? {
+            Ok((off, rl, v, _)) => {
+                ensure!(v == MExt::Unknown(ty, body.to_vec()), "C05:single:parse_tls_extension_unknown:value", "parse_tls_extension_unknown on a type {} extension of {} data bytes followed by {} more bytes: decoded {}, expected Unknown({}, the {} data bytes)", ty, body.len(), tail.len(), trunc(&format!("{:?}", v)), ty, body.len());
+                ensure!(rl == tail.len() && (rl == 0 || off == enc.len()), "C05:single:parse_tls_extension_unknown:remainder", "parse_tls_extension_unknown: remainder {} bytes at {}, expected the {} trailing bytes", rl, off, tail.len());
+            }
+            Err(e) => return fail("C05:single:parse_tls_extension_unknown:rejected", format!("parse_tls_extension_unknown rejected a complete extension of type {} with {}: {}", ty, e, hex_short(&buf))),
+        }
+    }
     if m.has_content() && !matches!(m, MExt::Unknown(..)) {
         obs.nontrivial(fnv64(&buf));
     }
@@ -383,12 +395,17 @@ fn equality(t: &mut Tape, obs: &mut Obs) -> R {
         let verdict = guard("extension list parser", || {
             let (ra, rb, ra2) = (p(&a), p(&b), p(&a2));
             match (&ra, &rb, &ra2) {
-                (Ok((_, va)), Ok((_, vb)), Ok((_, va2))) => Some((conv::exts(va) != conv::exts(vb), va == vb, va != vb, va == va2, va != va2, format!("{:?}", va), format!("{:?}", vb))),
+                (Ok((_, va)), Ok((_, vb)), Ok((_, va2))) => {
+                    let c = va.clone();
+                    let clone_ok = conv::exts(&c) == conv::exts(va) && c == *va && format!("{:?}", c) == format!("{:?}", va);
+                    Some((conv::exts(va) != conv::exts(vb), va == vb, va != vb, va == va2, va != va2, format!("{:?}", va), format!("{:?}", vb), clone_ok))
+                }
                 _ => None,
             }
         })?;
-        if let Some((differ, eq, ne, same_eq, same_ne, da, db)) = verdict {
+        if let Some((differ, eq, ne, same_eq, same_ne, da, db, clone_ok)) = verdict {
             obs.evals_add(1);
+            ensure!(clone_ok, format!("C05:equality:{}:clone-differs", dn), "{} list parser: the clone of a decoded list differs from the list: {}", dn, trunc(&da));
             ensure!(same_eq && !same_ne, format!("C05:equality:{}:same-bytes-unequal", dn), "{} list parser: one block decoded twice gives values that do not compare equal: {}", dn, trunc(&da));
             if differ {
                 obs.nontrivial(fnv64(&b));
